@@ -231,8 +231,8 @@ func checkOperations(doc specDoc, version string, report func(class, msg string)
 				}
 			}
 			sort.Strings(props)
-			if req := strs(dig(sc, "required")); fmt.Sprint(props) != "[label_text weight]" || fmt.Sprint(req) != "[label_text]" {
-				report("C06-form-fields", fmt.Sprintf("%s: %s form body has properties %v required %v, want [label_text weight] required [label_text]", version, key, props, req))
+			if req := strs(dig(sc, "required")); fmt.Sprint(props) != "[label_text level weight]" || fmt.Sprint(req) != "[label_text]" {
+				report("C06-form-fields", fmt.Sprintf("%s: %s form body has properties %v required %v, want [label_text level weight] required [label_text]", version, key, props, req))
 			}
 		}
 		if body != w.body {
